@@ -60,6 +60,15 @@ func gen(rng *rand.Rand, tier core.Tier, emit core.Emit) {
 		}
 		emit("enc", core.Hex(secret(rng)), core.Hex(core.RandBytes(rng, 8)), core.Hex(core.RandBytes(rng, ln)))
 	}
+	// key setup only (short payloads): about 1 random header in 280 makes shuffle() reach its 12th retry, where the SDK's
+	// "u %= limit" fallback applies; enough of them that every run meets that branch many times
+	short := 3000
+	if tier == core.Thorough {
+		short = 30000
+	}
+	for i := 0; i < short; i++ {
+		emit("enc", core.Hex(secret(rng)), core.Hex(core.RandBytes(rng, 8)), core.Hex(core.RandBytes(rng, rng.Intn(3))))
+	}
 	for i := 0; i < big; i++ {
 		emit("enc", core.Hex(secret(rng)), core.Hex(core.RandBytes(rng, 8)), core.Hex(core.RandBytes(rng, 60000+rng.Intn(5536))))
 	}
